@@ -133,6 +133,8 @@ def replay(r):
   try:
     val = eval('h.%s(%s)' % (rp['func'], rp['args']), {'h': h})
     return dict(reproduced=val is not True, detail=dict(call='%s(%s)' % (rp['func'], rp['args']), returned=repr(val)))
+  except h.OutOfRandomness as e:
+    return dict(reproduced=False, detail=dict(call='%s(%s)' % (rp['func'], rp['args']), harness='the code drew more random values than the harness supplies: %r' % (e,)))
   except Exception as e:  # pylint: disable=broad-except
     return dict(reproduced=True, detail=dict(call='%s(%s)' % (rp['func'], rp['args']), raised=repr(e)[:200]))
 
